@@ -3071,7 +3071,7 @@ class Device(utils.CompositeEventEmitter):
         try:
             await self.send_sync_command(
                 hci.HCI_LE_Set_Random_Address_Command(
-                    random_address=self.random_address
+                    random_address=random_address
                 )
             )
             logger.info(f'new RPA: {random_address}')
